@@ -23,4 +23,17 @@ def zipWith3 {α β γ δ : Type} (f : α → β → γ → δ) : List α → Li
   | a :: as, b :: bs, c :: cs => f a b c :: zipWith3 f as bs cs
   | _, _, _ => []
 
+/-! Python's `sub in s` on strings, by structural recursion on characters (reduces in the kernel) -/
+def isPrefixChars : List Char → List Char → Bool
+  | [], _ => true
+  | _ :: _, [] => false
+  | a :: as, b :: bs => a == b && isPrefixChars as bs
+
+def containsChars (sub : List Char) : List Char → Bool
+  | [] => sub.isEmpty
+  | c :: t => isPrefixChars sub (c :: t) || containsChars sub t
+
+/-- `sub in s` -/
+def strContains (s sub : String) : Bool := containsChars sub.toList s.toList
+
 end Allfed
